@@ -77,17 +77,23 @@ pub fn factory_row(ctor: i64, imp: i64, a: [i64; 4]) -> Vec<i64> {
                 let (m, al) = guarded(|| build::<RawShortMessage>(ctor, &a));
                 row.extend_from_slice(&[m.is_none() as i64, al as i64]);
                 if let Some(m) = m {
-                    let v = obs(&mut acc, &m);
+                    // the row holds the vector taken with method syntax on the concrete type (what the caller of
+                    // a constructor writes; judged cell by cell), then whether the trait gives the same vector
+                    let v = obs_raw_method(&mut acc, &m);
+                    let g = obs(&mut acc, &m);
                     row.extend_from_slice(&v);
                     row.push(acc.allocs as i64);
+                    row.push((v == g) as i64);
                 }
             } else {
                 let (m, al) = guarded(|| build::<StructuredShortMessage>(ctor, &a));
                 row.extend_from_slice(&[m.is_none() as i64, al as i64]);
                 if let Some(m) = m {
-                    let v = obs(&mut acc, &m);
+                    let v = obs_structured_method(&mut acc, &m);
+                    let g = obs(&mut acc, &m);
                     row.extend_from_slice(&v);
                     row.push(acc.allocs as i64);
+                    row.push((v == g) as i64);
                 }
             }
         }
